@@ -87,3 +87,83 @@ Print Assumptions C17_remove_exact_old_refuted.
 Theorem C17_run_meets_spec : forall s, valid s = true -> spec s (run s) = true.
 Proof. exact run_meets_spec. Qed.
 Print Assumptions C17_run_meets_spec.
+
+(* --------------------------------------------------------------------------------------------------------------
+   The pointer table of the model IS the source: CppUTestStore and SetPointerPlugin::postTestAction as tools/cxx2heap.py regenerates them from TestPlugin.cpp on every run (gen/Gen_HeapC17.v; the file-static pointerTableIndex and setlist[MAX_SET] are heap objects, a void** is the address of a cell of the pool block; rep in C17_HeapTie.v), run on a heap representing (pool, table): a store below the limit extends the table exactly as the model's Set statement does and writes nothing else; a store into a FULL table writes nothing at all and fails the test (HFail); the post action leaves the pool the model's restore computes -- each location back at the value it had before its first redirection -- and an empty table
+   -------------------------------------------------------------------------------------------------------------- *)
+From CppUVerif Require Import lib.CSem lib.CMem lib.CHeap gen.Gen_HeapC17 C17_HeapTie.
+Local Open Scope Z_scope.
+Theorem C17_max_set_32 :
+  max_set = 32.
+Proof. exact max_set_32. Qed.
+Print Assumptions C17_max_set_32.
+
+Theorem C17_src_CppUTestStore_spec :
+  forall (fuel : nat) (h : heap) (evs : list hev) (nx : Z) (bp bi bs : nat) (pool : mem) (tb : table) (l : nat),
+  rep h bp bi bs pool tb ->
+  length tb < max_set ->
+  l < length pool ->
+  exists h' : heap,
+  src_CppUTestStore fuel h evs nx (HPtr bi Z0) (HPtr bs Z0) (loc_ptr bp l) = FOk (tt, h', evs, nx) /\
+  rep h' bp bi bs pool ((l, rd pool l) :: tb) /\
+  hblock h' bp = hblock h bp /\
+  hblock h' bs =
+  upd (upd (hblock h bs) (2 * length tb + 1) (VInt (BinInt.Z.of_N (rd pool l)))) (2 * length tb)
+  (VPtr (loc_ptr bp l)) /\
+  length h' = length h /\ (forall b : nat, b <> bi -> b <> bs -> hblock h' b = hblock h b).
+Proof. exact src_CppUTestStore_spec. Qed.
+Print Assumptions C17_src_CppUTestStore_spec.
+
+Theorem C17_src_CppUTestStore_full_spec :
+  forall (fuel : nat) (h : heap) (evs : list hev) (nx : Z) (bp bi bs : nat) (pool : mem) (tb : table) (f : hptr),
+  rep h bp bi bs pool tb ->
+  length tb = max_set ->
+  0 < fuel -> src_CppUTestStore fuel h evs nx (HPtr bi Z0) (HPtr bs Z0) f = FOk (tt, h, evs ++ [HFail], nx).
+Proof. exact src_CppUTestStore_full_spec. Qed.
+Print Assumptions C17_src_CppUTestStore_full_spec.
+
+Theorem C17_src_SetPointer_postTestAction_spec :
+  forall (fuel : nat) (h : heap) (evs : list hev) (nx : Z) (this_ : hptr) (bp bi bs : nat)
+  (pool : mem) (tb : table),
+  rep h bp bi bs pool tb ->
+  length tb < fuel ->
+  exists h' : heap,
+  src_SetPointer_postTestAction fuel h evs nx this_ (HPtr bi Z0) (HPtr bs Z0) = FOk (tt, h', evs, nx) /\
+  rep h' bp bi bs (restore tb pool) [] /\
+  hblock h' bp = pool_cells (restore tb pool) /\
+  hblock h' bi = [VInt Z0] /\
+  hblock h' bs = hblock h bs /\
+  length h' = length h /\ (forall b : nat, b <> bp -> b <> bi -> hblock h' b = hblock h b).
+Proof. exact src_SetPointer_postTestAction_spec. Qed.
+Print Assumptions C17_src_SetPointer_postTestAction_spec.
+
+Theorem C17_src_SetPointer_postTestAction_first_value :
+  forall (fuel : nat) (h : heap) (evs : list hev) (nx : Z) (this_ : hptr) (bp bi bs : nat)
+  (pool : mem) (tb : table),
+  rep h bp bi bs pool tb ->
+  length tb < fuel ->
+  exists h' : heap,
+  src_SetPointer_postTestAction fuel h evs nx this_ (HPtr bi Z0) (HPtr bs Z0) = FOk (tt, h', evs, nx) /\
+  (forall l : nat,
+  l < length pool ->
+  cell h' bp l = Some (VInt (BinInt.Z.of_N match oldest tb l with
+  | Some v => v
+  | None => rd pool l
+  end))).
+Proof. exact src_SetPointer_postTestAction_first_value. Qed.
+Print Assumptions C17_src_SetPointer_postTestAction_first_value.
+
+Theorem C17_ut_ptr_set_spec :
+  forall (fuel : nat) (h : heap) (evs : list hev) (nx : Z) (bp bi bs : nat) (pool : mem)
+  (tb : table) (l : nat) (v : N),
+  rep h bp bi bs pool tb ->
+  length tb < max_set ->
+  l < length pool ->
+  exists h' h'' : heap,
+  src_CppUTestStore fuel h evs nx (HPtr bi Z0) (HPtr bs Z0) (loc_ptr bp l) = FOk (tt, h', evs, nx) /\
+  hstore h' (loc_ptr bp l) (VInt (BinInt.Z.of_N v)) = Some h'' /\
+  exec_stmt pool tb (SSet l v) = (C17_Model.upd pool l v, (l, rd pool l) :: tb, true) /\
+  rep h'' bp bi bs (C17_Model.upd pool l v) ((l, rd pool l) :: tb) /\
+  (forall b : nat, b <> bp -> b <> bi -> b <> bs -> hblock h'' b = hblock h b).
+Proof. exact ut_ptr_set_spec. Qed.
+Print Assumptions C17_ut_ptr_set_spec.
